@@ -324,6 +324,17 @@ def _run_kernel(f, fn, case, c, K, subj, mod):
             if not c.scalar(f, got, want, scale=50.0, key=K + ':value', sub={'x': a, 'y': b}): return
             if list(xa) != ia or list(xb) != ib:
                 c.viol.append({'key': K + ':input-modified', 'msg': f + ' modified its input'}); return
+            if f == 'snrm2' and a:
+                # the same vector (and its all-negative image) scaled by an exact power of two so small that the squares
+                # underflow: the norm of a nonzero vector is still its norm (2^-520 * reference), never 0, negative or inf
+                for t in (a, [-abs(u) for u in a]):
+                    xs = _mk([u * 2.0 ** -520 for u in t])
+                    got = fn(xs, d, mnl=mnl) if mnl else fn(xs, d)
+                    want = R.snrm2(t, d, mnl)
+                    c.n += 1; c.nontrivial += nt
+                    if not (got == got and abs(got * 2.0 ** 520 - want) <= 1e-12 * max(1.0, want)):
+                        c.viol.append({'key': K + ':value:tiny-vector', 'msg': 'snrm2 of 2^-520 * x is %r, 2^-520 * %r expected'
+                                       % (got, want), 'sub': {'x': t}}); return
         return
 
     if f in ('trisc', 'triusc'):
